@@ -102,7 +102,7 @@ func genC16(rt *rapid.T) C16Case {
 		op.Seed = rapid.Uint32Range(0, 16).Draw(rt, "oseed")
 		return op
 	})
-	c.Ops = rapid.SliceOfN(opGen, 1, 40).Draw(rt, "ops")
+	c.Ops = rapid.SliceOfN(opGen, 1, tierN(40, 120)).Draw(rt, "ops")
 	return c
 }
 
